@@ -18,7 +18,7 @@ var c16Names = []string{"a", "ab", "b", "a.b", "c", "ba"}
 func c16Compose() (hackpadfs.FS, string, int, []bool) {
 	base, err := mem.NewFS()
 	verifAssert(err == nil, "NewFS failed")
-	kind := verifChoice("fskind", 4)
+	kind := verifChoice("fskind", 5)
 	prefix := "d"
 	switch kind {
 	case 0:
@@ -31,6 +31,8 @@ func c16Compose() (hackpadfs.FS, string, int, []bool) {
 		verifTag("fs", "cache")
 	case 3:
 		verifTag("fs", "below-mount")
+	case 4:
+		verifTag("fs", "sub-dot")
 	}
 	verifAssert(base.Mkdir(prefix, 0755) == nil, "Mkdir d")
 	// siblings whose names extend the directory's name must never show up in its listing
@@ -71,6 +73,11 @@ func c16Compose() (hackpadfs.FS, string, int, []bool) {
 		cfs, err := cache.NewReadOnlyFS(base, store, cache.ReadOnlyOptions{})
 		verifAssert(err == nil, "NewReadOnlyFS failed")
 		return cfs, "d", c, isDir
+	case 4:
+		// the generic view whose base directory is the root itself
+		sub, err := hackpadfs.Sub(base, ".")
+		verifAssert(err == nil, "Sub(.) failed")
+		return sub, "d", c, isDir
 	default:
 		root, err := mem.NewFS()
 		verifAssert(err == nil, "NewFS failed")
